@@ -9,7 +9,7 @@ python3 tools/rs2v.py || echo "setup: translator reported a broken tie (checks w
 python3 tools/mkproject.py
 ( cd coq && coq_makefile -f _CoqProject -o Makefile >/dev/null && timeout 3000 make -k -j16 ) 2>&1 | tail -5
 cp /repo/Cargo.lock harness/Cargo.lock 2>/dev/null
-( cd harness && timeout 3000 cargo build --offline --bins ) 2>&1 | tail -3
+( cd harness && timeout 3000 cargo build --offline --bins && timeout 3000 cargo build --offline --bin intro --features c20-macros ) 2>&1 | tail -3
 python3 - <<'PY'
 import sys, os
 sys.path.insert(0, os.getcwd())
